@@ -299,7 +299,10 @@ fn ent_ev<T: F>(case: &Value, out: &mut Vec<Value>) {
     let mk = |v: i64| -> T { if v == -1 { T::nan() } else if v == -2 { T::f(-0.25) } else { T::f(v as f64 / den) } };
     let (l1, l2) = (lay_of(case, "lay1", &shape), lay_of(case, "lay2", &shape));
     let pa = l1.build(&a.iter().map(|&v| mk(v)).collect::<Vec<T>>(), |_| T::f(0.5));
-    let pb = l2.build(&b.iter().map(|&v| mk(v)).collect::<Vec<T>>(), |_| T::f(0.25));
+    // optional extra binary exponents of q: q_i = b_i / 2^(m + bx_i) (probabilities far below p_i, still exactly representable)
+    let bx = jints(&case["bx"]);
+    let qv: Vec<T> = b.iter().enumerate().map(|(k, &v)| { let e = bx.get(k).copied().unwrap_or(0); if v > 0 && e > 0 { T::f(v as f64 / den * (2.0f64).powi(-(e as i32))) } else { mk(v) } }).collect();
+    let pb = l2.build(&qv, |_| T::f(0.25));
     let (va, vb) = (l1.view(&pa), l2.view(&pb));
     let cls = |x: T| -> Value { let v = x.g(); if v.is_nan() { json!({"c": "nan", "q": 0}) } else if v == f64::INFINITY { json!({"c": "inf", "q": 0}) } else if v == f64::NEG_INFINITY { json!({"c": "ninf", "q": 0}) } else { json!({"c": "fin", "q": quant(v, qe)}) } };
     let mut o = case.as_object().unwrap().clone();
@@ -512,7 +515,16 @@ pub fn gen(seed: u64, count: usize, tier: &str, params: &Params) -> Vec<Value> {
                                      3 => { let k = rng.below(n as u64) as usize; a[k] = 0; b[k] = -1; } _ => {} }
                 let shape = random_shape(&mut rng, n);
                 let (lay1, lay2) = two_lays(&mut rng, &shape);
-                cases.push(json!({"ev": "ent", "ty": *rng.pick(&["f64", "f64", "f32"]), "a": a, "b": b, "m": m, "qe": 12, "shape": shape, "lay1": lay1, "lay2": lay2}));
+                let ty = *rng.pick(&["f64", "f64", "f32"]);
+                // q far below p (ratios of 2^-30 .. 2^-70), on tiny distributions so that the exact terms fit 31 bits
+                let mut bx: Vec<i64> = vec![0; n];
+                if n <= 3 && rng.chance(1, 4) {
+                    for v in a.iter_mut() { if *v > 4 { *v = 1 + *v % 4; } }
+                    for v in b.iter_mut() { if *v > 4 { *v = 1 + *v % 4; } }
+                    let k = rng.below(n as u64) as usize;
+                    bx[k] = if ty == "f32" { 30 } else { *rng.pick(&[40i64, 60, 70]) };
+                }
+                cases.push(json!({"ev": "ent", "ty": ty, "a": a, "b": b, "bx": bx, "m": m, "qe": 12, "shape": shape, "lay1": lay1, "lay2": lay2}));
             }
         }
     }
